@@ -1172,10 +1172,10 @@ def check_engine_property(pid, tier, seed):
         if violations == 0:
             print("MODEL-COUNTEREXAMPLE property=%s invariant %s fails on Engine.tla but its replay on the real engine is accepted" % (pid, mc["cex"][0]["invariant"]))
             mc_note = "model counterexample not reproduced on the code"
-    # drift escalates: look ten times harder around it before concluding
+    # drift escalates: look harder (twice the random volume, another seed) around it before concluding
     if conf["drift"] and violations == 0:
-        args2 = ["--state", "--scripted", str(vol["scripted"] * 5), "--adversarial", str(vol["adversarial"] * 5), "--faithful", str(vol["faithful"] * 5),
-                 "--cycles", str(vol["cycles"] * 5), "--races", str(vol["races"] * 5), "--limits", str(vol["limits"] * 5), "--interrupted", str(vol["interrupted"] * 5), "--wrapnear", str(vol["wrapnear"] * 5), "--len", str(vol["length"]), "--seed", str(seed + 7919)]
+        args2 = ["--state", "--scripted", str(vol["scripted"] * 2), "--adversarial", str(vol["adversarial"] * 2), "--faithful", str(vol["faithful"] * 2),
+                 "--cycles", str(vol["cycles"] * 2), "--races", str(vol["races"] * 2), "--limits", str(vol["limits"] * 2), "--interrupted", str(vol["interrupted"] * 2), "--wrapnear", str(vol["wrapnear"] * 2), "--len", str(vol["length"]), "--seed", str(seed + 7919)]
         trace2, scripts2, stats2 = engine_run(args2, workdir, "escalated")
         v2, seen2, details2, _ = judge_trace(pid, trace2, scripts2, workdir, known, log, "esc")
         violations += v2
